@@ -134,6 +134,13 @@ func (c *Ctx) Nontrivial(sig string) {
 	c.mu.Unlock()
 }
 
+// Counter reads a counter.
+func (c *Ctx) Counter(name string) int64 {
+	c.mu.Lock()
+	defer c.mu.Unlock()
+	return c.counters[name]
+}
+
 func (c *Ctx) Count(name string, n int) {
 	c.mu.Lock()
 	c.counters[name] += int64(n)
